@@ -80,7 +80,28 @@ func genDecodeMP(c *ctx) {
 		parts := []mpPart{{name: "a", data: "attack"}}
 		body := renderMP(r, boundary, parts)
 		ctype := "multipart/form-data; boundary=" + boundary
-		switch r.Intn(7) {
+		switch r.Intn(11) {
+		case 7, 8, 9, 10:
+			// the body ends while the reader is still looking for a delimiter: another boundary than the header announces,
+			// a preamble only, a last delimiter without its end — nothing or not everything can be read, the error must show
+			switch r.Intn(4) {
+			case 0:
+				body = strings.ReplaceAll(body, "--"+boundary, "--YbY")
+			case 1:
+				body = "just a preamble\r\nwith attack in it\r\n"
+			case 2:
+				body = strings.Replace(body, "--"+boundary+"--\r\n", "--"+boundary, 1)
+			default:
+				// ends inside the part's data, no line end: mime/multipart hands the data out and reports nothing
+				body = strings.Replace(body, "--"+boundary+"--\r\n", "", 1)
+				body = strings.TrimSuffix(body, "\r\n")
+				c.stats.Hit("kind:mpbad")
+				c.run("decode", "mpbad", gen.Field(ctype), gen.Field(body))
+				return
+			}
+			c.stats.Hit("kind:mpbadE")
+			c.run("decode", "mpbadE", gen.Field(ctype), gen.Field(body))
+			return
 		case 0:
 			ctype += "; boundary=other"
 		case 1:
